@@ -30,25 +30,25 @@ type route struct {
 	FailBody    []byte            `json:"fail_body,omitempty"`   // entity sent while failing (default: a short text)
 	AlwaysReset bool              `json:"always_reset,omitempty"`
 	TruncateAt  int               `json:"truncate_at,omitempty"` // announce the full Content-Length, send only this many bytes, then drop the connection
-	Tag         string            `json:"tag,omitempty"` // free-form label used by oracles (depth label, chain position, scope class...)
+	Tag         string            `json:"tag,omitempty"`         // free-form label used by oracles (depth label, chain position, scope class...)
 }
 
 type originLog struct {
-	ID        int64  `json:"id"`
-	StartSeq  int64  `json:"start_seq"`
-	EndSeq    int64  `json:"end_seq"`
-	Host      string `json:"host"`
-	URI       string `json:"uri"`
-	URL       string `json:"url"` // http://host/uri
-	Status    int    `json:"status"`
-	SHA1      string `json:"sha1"` // hex sha1 of the entity bytes sent
-	Len       int    `json:"len"`
-	Completed bool   `json:"completed"`
-	Reset     bool   `json:"reset,omitempty"`
-	Tag       string `json:"tag,omitempty"`
-	UnknownURI bool  `json:"unknown,omitempty"`
-	WallMs    int64  `json:"wall_ms"`
-	StartUs   int64  `json:"start_us"` // arrival time (µs since the origin started); data for rate monitors, never a deadline
+	ID         int64  `json:"id"`
+	StartSeq   int64  `json:"start_seq"`
+	EndSeq     int64  `json:"end_seq"`
+	Host       string `json:"host"`
+	URI        string `json:"uri"`
+	URL        string `json:"url"` // http://host/uri
+	Status     int    `json:"status"`
+	SHA1       string `json:"sha1"` // hex sha1 of the entity bytes sent
+	Len        int    `json:"len"`
+	Completed  bool   `json:"completed"`
+	Reset      bool   `json:"reset,omitempty"`
+	Tag        string `json:"tag,omitempty"`
+	UnknownURI bool   `json:"unknown,omitempty"`
+	WallMs     int64  `json:"wall_ms"`
+	StartUs    int64  `json:"start_us"` // arrival time (µs since the origin started); data for rate monitors, never a deadline
 }
 
 type origin struct {
